@@ -109,34 +109,32 @@ func verifNewTransform(cnt *verifCounter) (*parseTimeTransform, base.LogSchema) 
 	return cfg.NewTransform(schema, logger.Root(), cnt).(*parseTimeTransform), schema
 }
 
-func verifPut2(b []byte, v int) []byte { return append(b, byte('0'+v/10), byte('0'+v%10)) }
+// verifNum appends n decimal digits (each an independent symbolic digit) and
+// returns the number they denote; no division is needed this way.
+func verifNum(b []byte, name string, n int) ([]byte, int) {
+	v := 0
+	for i := 0; i < n; i++ {
+		d := sym.IntRange(name, 0, 9)
+		b = append(b, byte('0'+d))
+		v = v*10 + d
+	}
+	return b, v
+}
 
 // verifExact checks one fraction width f (0 = no fraction).
 func verifExact(f int) {
 	verifDate = verifDateRec{}
-	y := sym.IntRange("year", 0, 9999)
-	mon := sym.IntRange("month", 1, 12)
-	d := sym.IntRange("day", 1, 28)
-	h := sym.IntRange("hour", 0, 23)
-	mi := sym.IntRange("min", 0, 59)
-	s := sym.IntRange("sec", 0, 59)
 	b := make([]byte, 0, 40)
-	b = append(b, byte('0'+y/1000), byte('0'+y/100%10), byte('0'+y/10%10), byte('0'+y%10), '-')
-	b = append(verifPut2(b, mon), '-')
-	b = append(verifPut2(b, d), 'T')
-	b = append(verifPut2(b, h), ':')
-	b = append(verifPut2(b, mi), ':')
-	b = verifPut2(b, s)
+	b, y := verifNum(b, "year", 4)
+	b, mon := verifNum(append(b, '-'), "month", 2)
+	b, d := verifNum(append(b, '-'), "day", 2)
+	b, h := verifNum(append(b, 'T'), "hour", 2)
+	b, mi := verifNum(append(b, ':'), "min", 2)
+	b, s := verifNum(append(b, ':'), "sec", 2)
+	sym.Assume(mon >= 1 && mon <= 12 && d >= 1 && d <= 28 && h <= 23 && mi <= 59 && s <= 59)
 	expNs := 0
 	if f > 0 {
-		b = append(b, '.')
-		digits := 0
-		for i := 0; i < f; i++ {
-			dg := sym.IntRange("frac", 0, 9)
-			b = append(b, byte('0'+dg))
-			digits = digits*10 + dg
-		}
-		expNs = digits
+		b, expNs = verifNum(append(b, '.'), "frac", f)
 		for i := f; i < 9; i++ {
 			expNs *= 10
 		}
@@ -146,19 +144,21 @@ func verifExact(f int) {
 	if form == 0 {
 		b = append(b, 'Z')
 	} else {
-		zh := sym.IntRange("zoneHour", 0, 23)
-		zm := sym.IntRange("zoneMin", 0, 59)
-		expOff = zh*3600 + zm*60
 		sign := byte('+')
 		if form == 2 || form == 4 {
 			sign = '-'
-			expOff = -expOff
 		}
-		b = verifPut2(append(b, sign), zh)
+		var zh, zm int
+		b, zh = verifNum(append(b, sign), "zoneHour", 2)
 		if form <= 2 {
 			b = append(b, ':')
 		}
-		b = verifPut2(b, zm)
+		b, zm = verifNum(b, "zoneMin", 2)
+		sym.Assume(zh <= 23 && zm <= 59)
+		expOff = zh*3600 + zm*60
+		if sign == '-' {
+			expOff = -expOff
+		}
 	}
 	cnt := &verifCounter{}
 	tf, schema := verifNewTransform(cnt)
@@ -199,6 +199,22 @@ func VerifC13_Exact_f0() { verifExact(0) }
 //verif:stub (time.Time).Zone verifStubZone
 //verif:stub strconv.ParseFloat verifStubParseFloat
 //verif:reach parsed
+func VerifC13_Exact_f1() { verifExact(1) }
+
+//verif:stub time.Date verifStubDate
+//verif:stub time.Parse verifStubParse
+//verif:stub time.FixedZone verifStubFixedZone
+//verif:stub (time.Time).Zone verifStubZone
+//verif:stub strconv.ParseFloat verifStubParseFloat
+//verif:reach parsed
+func VerifC13_Exact_f2() { verifExact(2) }
+
+//verif:stub time.Date verifStubDate
+//verif:stub time.Parse verifStubParse
+//verif:stub time.FixedZone verifStubFixedZone
+//verif:stub (time.Time).Zone verifStubZone
+//verif:stub strconv.ParseFloat verifStubParseFloat
+//verif:reach parsed
 func VerifC13_Exact_f3() { verifExact(3) }
 
 //verif:stub time.Date verifStubDate
@@ -207,4 +223,89 @@ func VerifC13_Exact_f3() { verifExact(3) }
 //verif:stub (time.Time).Zone verifStubZone
 //verif:stub strconv.ParseFloat verifStubParseFloat
 //verif:reach parsed
+func VerifC13_Exact_f4() { verifExact(4) }
+
+//verif:stub time.Date verifStubDate
+//verif:stub time.Parse verifStubParse
+//verif:stub time.FixedZone verifStubFixedZone
+//verif:stub (time.Time).Zone verifStubZone
+//verif:stub strconv.ParseFloat verifStubParseFloat
+//verif:reach parsed
+func VerifC13_Exact_f5() { verifExact(5) }
+
+//verif:stub time.Date verifStubDate
+//verif:stub time.Parse verifStubParse
+//verif:stub time.FixedZone verifStubFixedZone
+//verif:stub (time.Time).Zone verifStubZone
+//verif:stub strconv.ParseFloat verifStubParseFloat
+//verif:reach parsed
 func VerifC13_Exact_f6() { verifExact(6) }
+
+//verif:stub time.Date verifStubDate
+//verif:stub time.Parse verifStubParse
+//verif:stub time.FixedZone verifStubFixedZone
+//verif:stub (time.Time).Zone verifStubZone
+//verif:stub strconv.ParseFloat verifStubParseFloat
+//verif:reach parsed
+func VerifC13_Exact_f7() { verifExact(7) }
+
+//verif:stub time.Date verifStubDate
+//verif:stub time.Parse verifStubParse
+//verif:stub time.FixedZone verifStubFixedZone
+//verif:stub (time.Time).Zone verifStubZone
+//verif:stub strconv.ParseFloat verifStubParseFloat
+//verif:reach parsed
+func VerifC13_Exact_f8() { verifExact(8) }
+
+//verif:stub time.Date verifStubDate
+//verif:stub time.Parse verifStubParse
+//verif:stub time.FixedZone verifStubFixedZone
+//verif:stub (time.Time).Zone verifStubZone
+//verif:stub strconv.ParseFloat verifStubParseFloat
+//verif:reach parsed
+func VerifC13_Exact_f9() { verifExact(9) }
+
+// verifShaped is the property's notion of "shaped like a date-time": at least
+// 19 bytes with the five separators in place.
+func verifShaped(v string) bool {
+	return len(v) >= 19 && v[4] == '-' && v[7] == '-' && v[10] == 'T' && v[13] == ':' && v[16] == ':'
+}
+
+//verif:stub time.Date verifStubDate
+//verif:stub time.Parse verifStubParse
+//verif:stub time.FixedZone verifStubFixedZone
+//verif:stub (time.Time).Zone verifStubZone
+//verif:stub strconv.ParseFloat verifStubParseFloat
+//verif:reach error-counted timestamp-set
+//verif:unwind 80
+func VerifC13_Total() {
+	verifDate = verifDateRec{}
+	max := 26
+	if sym.Tier() > 0 {
+		max = 40
+	}
+	v := sym.String("time", 0, max)
+	cnt := &verifCounter{}
+	tf, schema := verifNewTransform(cnt)
+	fallback := time.Unix(1600000000, 0)
+	rec := schema.NewTestRecord2(fallback, base.LogFields{v, ""})
+	rec.RawLength = 77
+	res := tf.Transform(rec) // obligation: no panic for any string
+	sym.Assert(res == base.PASS, "parseTime never drops")
+	sym.Assert(cnt.n == 0 || cnt.n == 1, "at most one error per record")
+	if cnt.n == 1 {
+		sym.Assert(cnt.bytes == 77, "error counted with the record length")
+		sym.Assert(rec.Timestamp == fallback, "fallback time left in place on error")
+		sym.Reach("error-counted")
+	} else if len(v) > 0 {
+		sym.Reach("timestamp-set")
+	}
+	if !verifShaped(v) {
+		if len(v) == 0 {
+			sym.Assert(cnt.n == 1, "empty value reported as an error")
+		} else {
+			sym.Assert(cnt.n == 1, "unshaped value reported as an error")
+		}
+		sym.Assert(rec.Timestamp == fallback, "unshaped value leaves the fallback time")
+	}
+}
